@@ -88,6 +88,23 @@ def run(ck):
     for body in ([J.Out(N("s")), J.Text("a"), J.Out(N("t"))], [J.If([N("c")], [[J.Out(N("s"))]])], [J.If([C(False)], [[J.Text("x")]])],
                  [J.For(J.TName("i"), J.List([C(1), C(2)]), [J.Out(N("t")), J.Out(N("i"))])], [J.Text("k"), J.Out(N("t"))]):
         cases.append(J.make_case(len(cases) + 1, {"main": J.template(body, False)}, "main", jp))
+    # every assignment form in every kind of scope: what a template exports (and so what its module is made of) is
+    # decided per form and scope; the module entry point must still give the text of the other entry points
+    forms = [lambda: ([J.Set("ea", C(1))], ["ea"]),
+             lambda: ([J.Set(J.TTuple([J.TName("eb"), J.TName("ec")]), J.List([C(1), N("s")], tup=True))], ["eb", "ec"]),
+             lambda: ([J.SetBlock("ed", [J.Text("x"), J.Out(N("s"))])], ["ed"]),
+             lambda: ([J.Macro("em", [], [], [J.Text("m")])], ["em"]),
+             lambda: ([J.Set("ea", C(1)), J.Set(J.TTuple([J.TName("ea"), J.TName("ef")]), J.List([C(3), C(4)], tup=True))], ["ea", "ef"])]
+    scopes = [lambda b: b, lambda b: [J.For(J.TName("i"), J.List([C(1), C(2)]), b)], lambda b: [J.If([N("c")], [b], [J.Text("E")])],
+              lambda b: [J.With([("w", C(1))], b)], lambda b: [J.Block("bb", b)],
+              lambda b: [J.Macro("mm", [], [], b), J.Out(J.Call(N("mm")))], lambda b: [J.For(J.TName("i"), J.List([]), [J.Text("-")], b)],
+              lambda b: [J.For(J.TName("i"), J.List([C(1)]), [J.If([N("c")], [b])])],
+              lambda b: [J.For(J.TName("i"), J.List([C(1)]), [J.For(J.TName("j"), J.List([C(1), C(2)]), b)])]]
+    for fm in forms:
+        for sc in scopes:
+            stm, names = fm()
+            body = [J.Text("A")] + sc(stm + [J.Out(N(names[0]))]) + [J.Text("|")] + [J.Out(J.Test(N(nm), "defined")) for nm in names]
+            cases.append(J.make_case(len(cases) + 1, {"main": J.template(body, False)}, "main", jp))
     obs, r = jrun.spec_results("C10", cases, name="entry", timeout=3000)
     ck.add_tlc(r, f"Jinja.tla ({len(cases)} programs)")
     by_case = {}
